@@ -31,7 +31,15 @@ def run_case(case):
                 src = p["a"]
                 obs = src if kind == "accum" else getattr(src, kind)()
                 rec = {"kind": kind, "vals": [], "done": 0, "err": 0, "bare": len(op) > 3 and op[3] == "bare"}
-                if len(op) > 3 and op[3] == "boom":
+                if len(op) > 3 and op[3] == "reent":
+                    # a listener that calls the probed function again from inside the delivery (once per outer event)
+                    def on_next(v, rec=rec):
+                        rec["vals"].append(v)
+                        if v < 100:
+                            LW.f(v + 100)
+                    obs.subscribe(on_next, lambda e, rec=rec: rec.__setitem__("err", rec["err"] + 1),
+                                  lambda rec=rec: rec.__setitem__("done", rec["done"] + 1))
+                elif len(op) > 3 and op[3] == "boom":
                     # a subscriber whose completion callback raises something that is not an Exception (an abort request)
                     def done(rec=rec):
                         rec["done"] += 1
